@@ -383,6 +383,28 @@ def hugr_leg(ctx):
                 if doc != doc0:
                     ctx.violate("idempotent", "resolving-again-after-registry-edits-changed-the-document", {})
                     return
+    if chain and not ctx.violations and ch.coin(1, 3, "resolve-against-a-smaller-registry"):
+        # another component resolves the HUGR once more against what *it* knows - a subset of the last registry: there is
+        # nothing new to replace, and what is definition-backed already is not opaque, so nothing changes at all
+        groups = [g for g in chain[-1] if ch.coin(1, 2, "keeps")]
+        before = {n.idx: op_tree(h[n].op) for n in h}
+        try:
+            h.resolve_extensions(registry(groups, ctx))
+        except Exception as e:  # noqa: BLE001
+            ctx.violate("resolve", f"raised:{type(e).__name__}", {"groups": groups, "error": str(e)[:200]})
+            return
+        ctx.steps += 1
+        ctx.ev("session", "resolve_extensions", {"registry": groups or ["empty"], "smaller": True})
+        ctx.probe("resolved_against_a_smaller_registry")
+        ctx.checked("untouched")
+        after = {n.idx: op_tree(h[n].op) for n in h}
+        if after != before:
+            bad = next(i for i in after if after[i] != before[i])
+            ctx.violate("untouched", "changed-by-resolving-against-a-smaller-registry", {"node": bad, "before": before[bad][:3], "after": after[bad][:3], "registry": groups})
+        elif strip_descr(json.loads(h.to_json())) != doc0:
+            ctx.violate("wire-invariant", "changed-by-resolving-against-a-smaller-registry", {"registry": groups})
+        elif sig_obs(h) != sig0:
+            ctx.violate("sig-invariant", "changed-by-resolving-against-a-smaller-registry", {"registry": groups})
 
 
 def _node(h, idx):
@@ -441,6 +463,9 @@ def gen_texpr(ch, depth=0):
         return t.tys.Opaque("ut", inner.type_bound(), [t.tys.TypeTypeArg(inner)], "verif.u")
     if k == 6:
         rows = [[gen_texpr(ch, depth + 1) for _ in range(ch.draw(3, "row"))] for _ in range(1 + ch.draw(2, "rows"))]
+        if not any(rows) and ch.coin(1, 2, "general-spelling-of-a-unit-sum"):
+            ctx_probe[0]("general_form_sum_with_empty_rows")
+            return t.tys.Sum(rows)  # the same type as UnitSum(n), written in the general form
         return t.tys.Sum(rows) if any(rows) else t.tys.UnitSum(len(rows))
     if k == 7:
         reqs = [[], ["verif.q"], ["b.ext", "a.ext"]][ch.draw(3, "runtime-reqs")]
@@ -534,6 +559,11 @@ def type_leg(ctx):
             g = order.pop(ch.draw(len(order), "which-group"))
             known.append(g + "~" if ch.coin(1, 3, "arrives-partial") else g)
         groups = list(known)
+        if known and ch.coin(1, 5, "resolve-against-a-smaller-registry"):
+            # another component resolves the same expression against what *it* knows (less): what is already
+            # definition-backed stays so (it is not opaque any more), the rest is judged against this registry
+            groups = [g for g in known if ch.coin(1, 2, "keeps")]
+            ctx.probe("resolved_against_a_smaller_registry")
         if any(g.endswith("~") for g in groups):
             ctx.probe("registry_with_older_extension_version")
         reg = registry(groups, ctx)
